@@ -173,6 +173,35 @@ def nest_block(draw, blocks, prob=5):
     return True
 
 
+def add_case_variant_key(draw, spec_obj, prob=4):
+    """one time in `prob`: some non-empty qualifiers dictionary inside the spec gets a second key that differs from an existing one
+    only in letter case, with values of its own ('note' from GenBank next to 'Note' from GFF3): two keys, two value sets"""
+    if draw(st.integers(0, prob - 1)):
+        return False
+    found = []
+
+    def walk(d):
+        if isinstance(d, dict):
+            q = d.get("qualifiers")
+            if isinstance(q, dict) and q:
+                found.append(q)
+            for v in d.values():
+                walk(v)
+        elif isinstance(d, list):
+            for v in d:
+                walk(v)
+    walk(spec_obj)
+    if not found:
+        return False
+    q = draw(st.sampled_from(found))
+    k = draw(st.sampled_from(sorted(q)))
+    k2 = draw(st.sampled_from([k.capitalize(), k.upper(), k[0] + k[1:].upper()]))
+    if k2 == k or k2 in q:
+        return False
+    q[k2] = [v + "2" for v in q[k]][:2] + draw(st.lists(st.sampled_from(["alt", "other value", "x1"]), max_size=1))
+    return True
+
+
 @st.composite
 def simple_qualifiers(draw, max_keys=3):
     keys = draw(st.lists(st.sampled_from(["note", "color", "evidence", "db_xref", "inference", "xkey", "identity", "names"]), max_size=max_keys, unique=True))
